@@ -256,13 +256,25 @@ def _cases(fb, f, opn, lo, hi):
     return out
 
 
-def full_range_failures(fb, paths):
-    """(function, op) pairs whose i32/i64 operation can leave its type for *some* i32 operands."""
+def sign_invariant_holds(fb):
+    """True when C09-denominator-sign finds no ratio construction with a non-positive denominator."""
+    from .ctx import Ctx
+    sub = Ctx("C09", "quick", 0)
+    sub._fb = {"dev": fb}
+    range_and_sign(sub, fb, census=False)
+    return not any(r["rule"] == "C09-denominator-sign" for r in sub.reports)
+
+
+def full_range_failures(fb, paths, pos_den_only=False):
+    """(function, op) pairs whose i32/i64 operation can leave its type for *some* i32 operands.
+    pos_den_only: restrict ratio operands to positive denominators (when that invariant is established)."""
     failing = {}
     lo, hi = interval.I32
     for opn, path in sorted(paths.items()):
         f = fb.find(path)
-        for label, args, _ in _cases(fb, f, opn, lo, hi):
+        for label, args, allpos in _cases(fb, f, opn, lo, hi):
+            if pos_den_only and not allpos:
+                continue
             it = Interp(fb)
             try:
                 it.run(f, args)
@@ -279,7 +291,7 @@ def full_range_failures(fb, paths):
     return failing
 
 
-def range_and_sign(ctx, fb):
+def range_and_sign(ctx, fb, census=True):
     kinds = ["Integer", "Rational"]
     signs = {"pos": IV(1, R15), "neg": IV(-R15, -1)}
     allf = dict(OPS2)
@@ -361,10 +373,13 @@ def range_and_sign(ctx, fb):
         ctx.report("C09-denominator-sign", _short(fn), "given positive operand denominators %s builds a ratio whose denominator "
                    "ranges over %s (case %s): a non-positive denominator makes comparison, floor/ceiling and the printed form wrong"
                    % (_short(fn), d, label), where_of(fb.by_path(fn)))
-    # never-wrong-exact: operations that can leave their type for some i32 operands (full-range interval run)
+    if not census:
+        return
+    # never-wrong-exact: operations that can leave their type for some i32 operands (full-range interval run);
+    # ratio operands have positive denominators when the sign rule above established that invariant
     arith = dict(OPS2)
     arith.update(OPS1)
-    fails = full_range_failures(fb, arith)
+    fails = full_range_failures(fb, arith, pos_den_only=not neg_den)
     checked = {(fn, op) for (fn, op, kind) in seen_never}
     for (fn, op) in sorted(checked):
         ctx.inst("C09-never-wrong-exact", "%s/%s" % (_short(fn), op), {"overflow_possible_for_some_i32": (fn, op) in fails})
